@@ -1,7 +1,7 @@
 """Child process of the C08 check: performs calls under an optional crash / fault plan and prints
 one JSON document. Usage: c08child.py '<json spec>'
 
-spec = {root, cache_mb|null, calls: [[fn, x], ...], fault: null | {kind: crash|error_event|error_write, index: i},
+spec = {root, cache_mb|null, calls: [[fn, x], ...], fault: null | {kind: crash|crash_after|error_event|error_write|error_close, index: i},
         then: [[fn, x], ...]}      # `then`: calls made in the same process after the faulted phase
 Mutating events under root are recorded by an audit hook and indexed 0.. in order of occurrence.
   crash:        os._exit(77) when event `index` is about to happen
@@ -59,8 +59,13 @@ def main():
         if fault["kind"] == "error_event":
             out["events"].pop()
             raise OSError(errno.ENOSPC, "injected: no space left on device", ev[1])
-        if fault["kind"] == "error_write":
-            state["pending_write_fault"] = ev[1]
+        if fault["kind"] == "crash_after":
+            # the operation completes, then the process dies (buffers of files that are still open are lost)
+            if ev[0] == "os.rename":
+                os.replace(ev[1], ev[2])
+            flush_and_exit()
+        if fault["kind"] in ("error_write", "error_close"):
+            state["pending_write_fault"] = (ev[1], fault["kind"])
 
     # files opened for writing are wrapped so that a write fault can be injected
     real_open = io.open
@@ -85,12 +90,41 @@ def main():
         def __exit__(self, *a):
             return self._f.__exit__(*a)
 
+    class FaultyOnClose:
+        """writes are accepted (buffered); the device reports the error when the data is flushed on close"""
+
+        def __init__(self, f):
+            self._f = f
+
+        def write(self, data):
+            return len(data)
+
+        def flush(self):
+            raise OSError(errno.EFBIG, "injected: file too large (on flush)")
+
+        def close(self):
+            self._f.close()
+            raise OSError(errno.EFBIG, "injected: file too large (on close)")
+
+        def __getattr__(self, a):
+            return getattr(self._f, a)
+
+        def __enter__(self):
+            self._f.__enter__()
+            return self
+
+        def __exit__(self, *a):
+            self._f.__exit__(*a)
+            if a[0] is None:
+                raise OSError(errno.EFBIG, "injected: file too large (on close)")
+            return False
+
     def patched_open(file, mode="r", *a, **k):
         f = real_open(file, mode, *a, **k)
         p = state["pending_write_fault"]
-        if p is not None and not isinstance(file, int) and os.path.abspath(os.fspath(file)) == p and any(c in mode for c in "wax+"):
+        if p is not None and not isinstance(file, int) and os.path.abspath(os.fspath(file)) == p[0] and any(c in mode for c in "wax+"):
             state["pending_write_fault"] = None
-            return Faulty(f)
+            return Faulty(f) if p[1] == "error_write" else FaultyOnClose(f)
         return f
 
     io.open = patched_open
